@@ -77,8 +77,16 @@ def _on_alarm(signum, frame):
     raise _Timeout()
 
 
+_timeouts = 0
+
+
 def guarded(fn, limit=TIMEOUT):
-    """("ok", v) | ("err", class, is_praatio) | ("timeout",)"""
+    """("ok", v) | ("err", class, is_praatio) | ("timeout",)
+    After three calls that did not come back the limit drops to 0.25 s (an ordinary call takes well under a millisecond),
+    so that a change which makes the search loop forever is reported in minutes, not hours."""
+    global _timeouts
+    if _timeouts >= 3:
+        limit = min(limit, 0.25)
     old = signal.signal(signal.SIGALRM, _on_alarm)
     signal.setitimer(signal.ITIMER_REAL, limit)
     try:
@@ -86,6 +94,7 @@ def guarded(fn, limit=TIMEOUT):
             v = fn()
         return ("ok", v)
     except _Timeout:
+        _timeouts += 1
         return ("timeout",)
     except Exception as e:  # noqa: BLE001 - the class is the observable
         return ("err", type(e).__name__, isinstance(e, perrors.PraatioException))
